@@ -46,9 +46,19 @@ func readByte(src *bufio.Reader) byte {
 }
 
 func decodeIntAdditionalType(src *bufio.Reader, minor byte) int64 {
-	val := int64(0)
+	val := decodeUintAdditionalType(src, minor)
+	if val > math.MaxInt64 {
+		panic(fmt.Errorf("Value out of range: %d", val))
+	}
+	return int64(val)
+}
+
+// decodeUintAdditionalType reads the argument of a data item head: the full
+// unsigned 64-bit range the encoder can write.
+func decodeUintAdditionalType(src *bufio.Reader, minor byte) uint64 {
+	val := uint64(0)
 	if minor <= 23 {
-		val = int64(minor)
+		val = uint64(minor)
 	} else {
 		bytesToRead := 0
 		switch minor {
@@ -66,7 +76,7 @@ func decodeIntAdditionalType(src *bufio.Reader, minor byte) int64 {
 		pb := readNBytes(src, bytesToRead)
 		for i := 0; i < bytesToRead; i++ {
 			val = val * 256
-			val += int64(pb[i])
+			val += uint64(pb[i])
 		}
 	}
 	return val
@@ -548,8 +558,16 @@ func cbor2JsonOneObject(src *bufio.Reader, dst io.Writer) {
 	case majorTypeUnsignedInt:
 		fallthrough
 	case majorTypeNegativeInt:
-		n := decodeInteger(src)
-		dst.Write([]byte(strconv.Itoa(int(n))))
+		val := decodeUintAdditionalType(src, readByte(src)&maskOutMajorType)
+		switch {
+		case major == majorTypeUnsignedInt:
+			dst.Write(strconv.AppendUint(nil, val, 10))
+		case val < math.MaxUint64:
+			// A negative integer n is carried as -1-n.
+			dst.Write(strconv.AppendUint([]byte{'-'}, val+1, 10))
+		default:
+			dst.Write([]byte("-18446744073709551616"))
+		}
 
 	case majorTypeByteString:
 		s := decodeString(src, false)
